@@ -177,11 +177,40 @@ fn gen_scale<S: XDom>(tp: &mut Tape, cx: &mut Cx, squares: bool) -> i32 {
 // core / elevation / tangent in the regimes
 // ---------------------------------------------------------------------------------------------
 
+/// Largest e such that a parameter |t| < 2^(e+1) keeps EVERY evaluation order of a degree-n Bernstein form of
+/// points |P| < 2^max(k,0) in range: the sum of the magnitudes of all terms, |P| (|t|+|1-t|)^n < 2^(k + n(e+2)),
+/// bounds every partial product of weights (t^n, 3 u^2 t, ..) and of weight * point, whatever is multiplied first.
+/// Required: k + n(e+2) <= maxexp - 1; two more bits per factor are left for the oracles' own sums. 0 for `Rat`.
+pub(crate) fn huge_exp_max<S: XDom>(n: usize, k: i32) -> i64 {
+    let maxexp = match S::NAME {
+        "f64" => 1023,
+        "f32" => 127,
+        _ => return 0,
+    };
+    ((maxexp - 1 - k.max(0)) / n as i32 - 3) as i64
+}
+
+/// With probability 3/16 (floats only): replace (p, t, u) by a huge-parameter case: points shrunk to |P| < 1
+/// (exactly, by 2^-4), |t| = 2^e (1+f) with e between the ordinary regime's limit and `huge_exp_max`, u in [0,1].
+fn huge_param<S: XDom, const N: usize, const D: usize>(tp: &mut Tape, cx: &mut Cx, n: usize, k: i32, p: &mut [[S; D]; N], t: &mut S, u: &mut S) {
+    let lo = param_exps::<S>().1 + 1;
+    let hi = huge_exp_max::<S>(n, k);
+    if S::EXACT || hi < lo || !tp.chance(48) {
+        return;
+    }
+    *p = map_pts(p, |q| mul_pt(q, p2::<S>(-4)));
+    // half of the cases in the top eighth of the exponent range (next to the overflow limit)
+    let e = if tp.bool() { tp.int(hi - (hi - lo) / 8, hi) } else { tp.int(lo, hi) };
+    let x = p2::<S>(e as i32) * (S::one() + S::unit(tp));
+    *t = if tp.bool() { -x } else { x };
+    *u = if tp.bool() { S::unit(tp) } else { S::q(tp.int(0, 8), 8) };
+    cx.label("t huge: +-2^e (1+f), e up to the limit where (|t|+|1-t|)^n stays finite");
+}
+
 pub fn core_regime<S: XDom, C: Curve<S, N, D>, const N: usize, const D: usize>(tp: &mut Tape, cx: &mut Cx) -> CaseResult {
-    let p: [[S; D]; N] = gen_points_regime(tp, cx);
-    let (t, tl) = gen_param_regime::<S>(tp);
-    cx.label(tl);
-    let u = match tp.below(4) {
+    let mut p: [[S; D]; N] = gen_points_regime(tp, cx);
+    let (mut t, tl) = gen_param_regime::<S>(tp);
+    let mut u = match tp.below(4) {
         0 => {
             cx.label("u = t");
             t
@@ -190,14 +219,23 @@ pub fn core_regime<S: XDom, C: Curve<S, N, D>, const N: usize, const D: usize>(t
         _ => gen_param(tp),
     };
     let k = gen_scale::<S>(tp, cx, false);
+    let t0 = t;
+    huge_param::<S, N, D>(tp, cx, N - 1, k, &mut p, &mut t, &mut u);
+    if t == t0 {
+        cx.label(tl);
+    }
     core_body::<S, C, N, D>(cx, &p, k, t, u)
 }
 
 pub fn elevate_regime<S: XDom, Q: Quad<S, D>, const D: usize>(tp: &mut Tape, cx: &mut Cx) -> CaseResult {
-    let p: [[S; D]; 3] = gen_points_regime(tp, cx);
-    let (t, tl) = gen_param_regime::<S>(tp);
-    cx.label(tl);
+    let mut p: [[S; D]; 3] = gen_points_regime(tp, cx);
+    let (mut t, tl) = gen_param_regime::<S>(tp);
     let k = gen_scale::<S>(tp, cx, false);
+    let (t0, mut u) = (t, S::zero());
+    huge_param::<S, 3, D>(tp, cx, 3, k, &mut p, &mut t, &mut u); // the elevated curve is cubic
+    if t == t0 {
+        cx.label(tl);
+    }
     elevate_body::<S, Q, D>(cx, &p, k, t)
 }
 
@@ -207,7 +245,7 @@ pub fn tangent_regime<S: XDom, C: Curve<S, N, D>, const N: usize, const D: usize
     cx.label(tl);
     tangent_fix(tp, cx, &mut p, &mut t);
     let k = gen_scale::<S>(tp, cx, true);
-    tangent_body::<S, C, N, D>(cx, &p, k, t)
+    tangent_body::<S, C, N, D>(cx, &p, &[S::zero(); D], k, t)
 }
 
 // ---------------------------------------------------------------------------------------------
